@@ -653,6 +653,10 @@ func (w *World) privateHelperOf(h *ssa.Function, allowed map[string]bool, depth 
 		if root == h {
 			continue
 		}
+		// promoted-method wrappers of embedding types that nobody calls are not callers
+		if strings.HasPrefix(root.Synthetic, "wrapper for ") && len(w.CG().CallersOf(root)) == 0 {
+			continue
+		}
 		n++
 		name := FnName(root)
 		if allowed[name] {
